@@ -54,6 +54,32 @@ impl Flavor for RecExtend {
     }
 }
 
+/// byte sink that accepts at most `k` bytes per write call (partial writes are legal for both Write traits)
+pub struct PieceSink(pub Vec<u8>, pub usize);
+impl std::io::Write for PieceSink {
+    fn write(&mut self, buf: &[u8]) -> std::io::Result<usize> {
+        let n = buf.len().min(self.1);
+        self.0.extend_from_slice(&buf[..n]);
+        Ok(n)
+    }
+    fn flush(&mut self) -> std::io::Result<()> {
+        Ok(())
+    }
+}
+impl embedded_io::ErrorType for PieceSink {
+    type Error = embedded_io::ErrorKind;
+}
+impl embedded_io::Write for PieceSink {
+    fn write(&mut self, buf: &[u8]) -> Result<usize, Self::Error> {
+        let n = buf.len().min(self.1);
+        self.0.extend_from_slice(&buf[..n]);
+        Ok(n)
+    }
+    fn flush(&mut self) -> Result<(), Self::Error> {
+        Ok(())
+    }
+}
+
 macro_rules! with_digest {
     ($a:expr, |$d:ident| $body:expr) => {
         match $a {
@@ -147,6 +173,12 @@ pub fn run(ctx: &Ctx) {
             if big <= 700 {
                 expect!("Cobs<HVec>", trap(|| Cobs::try_new(HVec::<700>::new()).and_then(|f| serialize_with_flavor(&d, f)).map(|o| o.to_vec())), cobs_want);
             }
+            // sink-backed storages: an Extend collection and byte writers that take 1, 3 or all bytes per call
+            expect!("ExtendFlavor<Vec>", trap(|| serialize_with_flavor(&d, postcard::ser_flavors::ExtendFlavor::new(Vec::<u8>::new()))), plain);
+            for k in [1usize, 3, usize::MAX] {
+                expect!(&format!("io::WriteFlavor<sink taking {k}/call>"), trap(|| serialize_with_flavor(&d, postcard::ser_flavors::io::WriteFlavor::new(PieceSink(vec![], k))).map(|w: PieceSink| w.0)), plain);
+                expect!(&format!("eio::WriteFlavor<sink taking {k}/call>"), trap(|| serialize_with_flavor(&d, postcard::ser_flavors::eio::WriteFlavor::new(PieceSink(vec![], k))).map(|w: PieceSink| w.0)), plain);
+            }
             // the convenience entry points are the same stacks: identical bytes, whatever the storage
             for (name, got) in [
                 ("to_allocvec_cobs", trap(|| postcard::to_allocvec_cobs(&d))),
@@ -190,6 +222,9 @@ pub fn run(ctx: &Ctx) {
                 if big <= 700 {
                     with_digest!(*a, |dg| expect!(&format!("Crc<{an}, HVec>"), trap(|| serialize_with_flavor(&d, CrcModifier::new(HVec::<700>::new(), dg)).map(|o| o.to_vec())), crc_want));
                 }
+                with_digest!(*a, |dg| expect!(&format!("Crc<{an}, ExtendFlavor<Vec>>"), trap(|| serialize_with_flavor(&d, CrcModifier::new(postcard::ser_flavors::ExtendFlavor::new(Vec::<u8>::new()), dg))), crc_want));
+                with_digest!(*a, |dg| expect!(&format!("Crc<{an}, io::WriteFlavor>"), trap(|| serialize_with_flavor(&d, CrcModifier::new(postcard::ser_flavors::io::WriteFlavor::new(PieceSink(vec![], 3)), dg)).map(|w: PieceSink| w.0)), crc_want));
+                with_digest!(*a, |dg| expect!(&format!("Crc<{an}, eio::WriteFlavor>"), trap(|| serialize_with_flavor(&d, CrcModifier::new(postcard::ser_flavors::eio::WriteFlavor::new(PieceSink(vec![], 3)), dg)).map(|w: PieceSink| w.0)), crc_want));
                 // checksum-then-COBS: CRC modifier outermost so data and checksum flow into the COBS encoder
                 with_digest!(*a, |dg| expect!(
                     &format!("Crc<{an}, Cobs<Slice>>"),
@@ -279,7 +314,7 @@ pub fn run(ctx: &Ctx) {
     ev.bound("values", json!(nvals));
     ev.bound("algorithms", json!(algos.iter().map(|a| a.params().name).collect::<Vec<_>>()));
     ev.bound("stacks", json!(["S", "Cobs<S>", "Crc_w<S>", "Crc_w<Cobs<S>>", "RecPush", "RecExtend", "Crc_w<RecPush>", "Crc_w<RecExtend>"]));
-    ev.bound("storages", json!(["Slice", "HVec<700>", "AllocVec"]));
+    ev.bound("storages", json!(["Slice", "HVec<700>", "AllocVec", "ExtendFlavor<Vec<u8>>", "io::WriteFlavor / eio::WriteFlavor over sinks accepting 1, 3 or all bytes per call (not under Cobs, which needs an indexable storage)"]));
     ev.rule = "every value of the corpus x every stack x every innermost storage through serialize_with_flavor; output must equal the composition of the independent COBS / CRC reference transformers applied to the spec encoding; recording user flavours must receive exactly the plain encoding in order; undoing the layers in reverse recovers the value".into();
     ev.sample(json!({"value": "Bytes(254 x 0x11)", "stack": "Crc<CRC_32_ISCSI, Cobs<Slice>>", "expect": "cobs(plain ++ crc32_le) ++ 00"}));
     ev.assumptions = vec!["finite value corpus (shapes <= 3 nodes + boundary byte arrays)".into()];
